@@ -41,6 +41,10 @@ def rand_net(rnd, nmin=2, nmax=8, dens=None, kind=None):
     else: edges = [(a, a + 1) for a in range(n - 1)]
     rnd.shuffle(edges)
     edges = [[a, b] if rnd.random() < 0.5 else [b, a] for a, b in edges]
+    if rnd.random() < 0.12:     # a self-loop or two, somewhere in the middle of the adjacency lists
+        for _ in range(rnd.choice([1, 1, 2])):
+            v = rnd.randrange(n)
+            if [v, v] not in edges: edges.insert(rnd.randrange(len(edges) + 1), [v, v])
     return nodes, edges
 
 
@@ -263,7 +267,7 @@ def gen_shipped(rnd, classes=None, dyn=None, oracles=('clock', 'member', 'loci')
     ps = sorted({v for k, v in params.items() if isinstance(v, float) and 0 < v < 1})
     return dict(procs=[dict(cls=cls, name=None, params=params)], seq='bare', dyn=dyn or rnd.choice(['sto', 'syn']), nodes=nodes,
                 edges=edges, maxT=maxT or rnd.choice([3.0, 6.0, 12.0]), seed=rnd.random(), specials=ps, pspecial=0.15,
-                oracles=list(oracles), preattr=(rnd.randrange(1 << 30) if rnd.random() < 0.25 else None), strlabels=rnd.random() < 0.2,
+                oracles=list(oracles), preattr=(rnd.randrange(1 << 30) if rnd.random() < 0.25 else None), strlabels=rnd.choice([False, False, False, False, False, False, False, True, True, 'big']),
                 ptypes=rnd.choice([None, None, None, 'int', 'np']))
 
 
